@@ -1132,7 +1132,7 @@ func (f *fctx) checkSkippable(call *ast.CallExpr, e *env) {
 		case *ast.CallExpr:
 			c := f.resolve(x, e)
 			switch c.kind {
-			case "skip", "id", "fn", "conv", "const", "errtoken":
+			case "skip", "id", "fn", "conv", "const", "errtoken", "sprintf", "oracle":
 			case "builtin":
 				if c.key == "delete" {
 					f.t.fail(x.Pos(), "delete inside a dropped logging call")
@@ -1244,7 +1244,15 @@ func (f *fctx) callTerm(call *ast.CallExpr, c *callee, e *env) (term string, res
 			call = &ast.CallExpr{Fun: call.Fun, Lparen: call.Lparen, Args: args[1:], Rparen: call.Rparen}
 		}
 		parts = append(parts, f.args(call, in.Args, e)...)
+		if in.Clock > 0 {
+			f.clock[call.Pos()] = in.Clock
+			for j := 0; j < in.Clock; j++ {
+				parts = append(parts, clockMark(call.Pos(), j))
+			}
+		}
 		return strings.Join(parts, " "), in.Ret, obj
+	case "sprintf":
+		return f.sprintf(call, e), []string{"string"}, nil
 	case "clock":
 		f.clock[call.Pos()] = 1
 		return clockMark(call.Pos(), 0), []string{"time.Time"}, nil
@@ -1275,6 +1283,61 @@ func (f *fctx) callTerm(call *ast.CallExpr, c *callee, e *env) (term string, res
 	}
 	t.fail(call.Pos(), "%s call in this position", c.kind)
 	return
+}
+
+// fmt.Sprintf(format, args…) for a literal format made of text and %s verbs applied
+// to strings: the concatenation it denotes
+func (f *fctx) sprintf(call *ast.CallExpr, e *env) string {
+	t := f.t
+	if len(call.Args) == 0 {
+		t.fail(call.Pos(), "Sprintf without a format")
+	}
+	lit, ok := unparen(call.Args[0]).(*ast.BasicLit)
+	if !ok || lit.Kind != token.STRING {
+		t.fail(call.Pos(), "Sprintf whose format is not a string literal")
+	}
+	format, _ := strconv.Unquote(lit.Value)
+	var parts []string
+	text := ""
+	flush := func() {
+		if text != "" {
+			parts = append(parts, bytesTerm(text))
+			text = ""
+		}
+	}
+	next := 1
+	for i := 0; i < len(format); i++ {
+		if format[i] != '%' {
+			text += string(format[i])
+			continue
+		}
+		i++
+		switch {
+		case i < len(format) && format[i] == '%':
+			text += "%"
+		case i < len(format) && format[i] == 's':
+			if next >= len(call.Args) {
+				t.fail(call.Pos(), "Sprintf: more verbs than arguments")
+			}
+			a, at := f.expr(call.Args[next], e)
+			if at != "string" {
+				t.fail(call.Args[next].Pos(), "Sprintf %%s applied to %s (only strings)", at)
+			}
+			flush()
+			parts = append(parts, paren(a))
+			next++
+		default:
+			t.fail(call.Pos(), "Sprintf verb other than %%s in %q", format)
+		}
+	}
+	flush()
+	if next != len(call.Args) {
+		t.fail(call.Pos(), "Sprintf: more arguments than verbs")
+	}
+	if len(parts) == 0 {
+		return "[]"
+	}
+	return strings.Join(parts, " ++ ")
 }
 
 func stripAddr(x ast.Expr) ast.Expr {
